@@ -11,7 +11,9 @@ Correspondence (model `TW.Chip.chipPolygon`, Model/ChipBorder.lean, op `chipbord
     * FITS correctors WITHOUT bounding box (`pixel_shape = None; pixel_bounds = None` after construction),
     * mock JWST (gWCS) correctors with a bounding box (several sizes) and without,
   catalogs of 0..5 sources (integer, half-integer `k + 0.5` -- the boundary of the `floor` --, zero, large,
-  dyadic, random, and negative coordinates), `stepsize` None / several values / 0 / negative, through
+  dyadic, random, and negative coordinates; with a bounding box: anywhere in the closed box, INCLUDING the outer
+  half-pixel band, exactly on the edges of the box and of the box shrunk by half a pixel, and -- rarely --
+  outside the box), `stepsize` None / several values / 0 / negative, through
   `calc_bounding_polygon()` and through `_calc_chip_bounding_polygon(stepsize=...)` directly.  The border is
   compared with the model BIT FOR BIT in mode F (IEEE doubles, the same operations in the same order,
   `numpy.linspace` included); for dyadic inputs the model is also run on exact rationals (mode Q): the
@@ -22,13 +24,21 @@ Oracle (independent of the model; exact `fractions.Fraction` arithmetic on the r
   * no bounding box: the rectangle starts at the pixel edge -1/2, its upper edges are half-integers, every
     catalog source with coordinates >= -1/2 is strictly below the upper edges (`x < hx`, `y < hy`) and the
     rectangle does not extend more than one pixel beyond the largest coordinate;
-  * bounding box: the rectangle is the box shrunk by exactly half a pixel on every side;
+  * bounding box: every source of the catalog that lies in the closed bounding box lies in the rectangle (checked
+    strictly, exact arithmetic), no side is more than half a pixel inside the box, the rectangle stays inside the
+    closed box (boxes at least one pixel wide), and it is the tightest such rectangle: the box shrunk by exactly
+    half a pixel on every side, enlarged just enough to hold the sources clipped to the box (so for catalogs
+    whose sources keep half a pixel from the edges, and for empty ones, it is the shrunk box);
   * the border is closed, has `2(nx+1) + 2(ny-1) + 1` points, walks bottom -> right -> top -> left, every point
     lies on the boundary of the rectangle, the four corners occur in this order, consecutive points are
     distinct when the rectangle is non-degenerate, the shoelace sum is exactly `+2 (hx-lx)(hy-ly)`
     (counter-clockwise), the sampling is uniform, `nx = ny = 3` without `stepsize`, and with a `stepsize > 0`
     no interval is longer than `stepsize` while one interval fewer (if more than two) would be;
-  * the spherical footprint `im.polygon` contains the sources of the catalog that lie in the rectangle.
+  * the spherical footprint `im.polygon` contains the sources of the catalog that lie in the rectangle -- with a
+    bounding box: all sources in the closed bounding box.
+
+`band_probe` is the regression probe of the repaired finding F25 (a source at x = 1023.3 in a 1024-pixel image used
+to be outside its own footprint: the box was shrunk by half a pixel whatever the catalog).
 """
 import math
 
@@ -37,7 +47,6 @@ import numpy as np
 from ..common import Fraction, q2s, f2x, x2f, s2q, to_fraction
 
 HALF = Fraction(1, 2)
-FINDING_BAND = 'F25'
 SKY_MIN_SIDE = 1.5e-7     # rad: narrowest footprint for which spherical containment is tested
 
 
@@ -123,8 +132,21 @@ def expected_rect(spec, res):
             k = math.floor(m + HALF)                 # index of the pixel that contains the largest coordinate
             out += [-HALF, Fraction(max(1, k + 1)) - HALF]
         return tuple(out)
-    (lx, hx), (ly, hy) = res['bbox']
-    return (to_fraction(lx) + HALF, to_fraction(hx) - HALF, to_fraction(ly) + HALF, to_fraction(hy) - HALF)
+    # bounding box: the box shrunk by half a pixel (the edges are doubles: `lo + 0.5` rounded), enlarged just enough
+    # to hold every source clipped to the box
+    out = []
+    for (lo, hi), col in zip(res['bbox'], (spec['x'], spec['y'])):
+        lo, hi = to_fraction(lo), to_fraction(hi)
+        col = [to_fraction(v) for v in col]
+        out += [min([to_fraction(float(lo + HALF))] + [max(v, lo) for v in col]),
+                max([to_fraction(float(hi - HALF))] + [min(v, hi) for v in col])]
+    return tuple(out)
+
+
+def in_box(res, a, b):
+    """the source (a, b) lies in the closed bounding box"""
+    (blx, bhx), (bly, bhy) = res['bbox']
+    return to_fraction(blx) <= to_fraction(a) <= to_fraction(bhx) and to_fraction(bly) <= to_fraction(b) <= to_fraction(bhy)
 
 
 def oracle(ctx, case, spec, res):
@@ -161,9 +183,27 @@ def oracle(ctx, case, spec, res):
     else:
         lx, hx, ly, hy = (to_fraction(float(v)) for v in expected_rect(spec, res))
         got = (P[0][0], max(bx) if lx <= hx else min(bx), P[0][1], max(by) if ly <= hy else min(by))
-        if got != (lx, hx, ly, hy):
-            bad.append('footprint rectangle is %s, expected the bounding box shrunk by half a pixel %s'
+        (blx, bhx), (bly, bhy) = [[to_fraction(v) for v in ax] for ax in res['bbox']]
+        # the property: every source in the closed bounding box is in the rectangle (strictly: exact comparison)
+        for a, b in zip(spec['x'], spec['y']):
+            if in_box(res, a, b) and not (got[0] <= to_fraction(a) <= got[1] and got[2] <= to_fraction(b) <= got[3]):
+                bad.append('source (%r, %r) inside the bounding box %s is outside the footprint rectangle %s'
+                           % (a, b, res['bbox'], [float(v) for v in got]))
+                break
+        # no side more than half a pixel inside the box; inside the closed box when the box is a pixel wide
+        for nm, lo, hi, g0, g1 in (('x', blx, bhx, got[0], got[1]), ('y', bly, bhy, got[2], got[3])):
+            slack = Fraction(1, 10 ** 12) * max(1, abs(lo), abs(hi))
+            if g0 > lo + HALF + slack or g1 < hi - HALF - slack:
+                bad.append('%s extent [%r, %r] of the footprint rectangle is more than half a pixel inside the '
+                           'bounding box [%r, %r]' % (nm, float(g0), float(g1), float(lo), float(hi)))
+            if hi - lo >= 1 and (g0 < lo or g1 > hi):
+                bad.append('%s extent [%r, %r] of the footprint rectangle leaves the bounding box [%r, %r]'
+                           % (nm, float(g0), float(g1), float(lo), float(hi)))
+        if not bad and got != (lx, hx, ly, hy):
+            bad.append('footprint rectangle is %s, expected the bounding box shrunk by half a pixel and enlarged '
+                       'just to the sources inside the box: %s'
                        % ([float(v) for v in got], [float(v) for v in (lx, hx, ly, hy)]))
+        if bad:
             return report(ctx, case, bad, res)
     # ---- closed, on the boundary, inside the extent ---------------------------
     if P[0] != P[-1]:
@@ -177,6 +217,14 @@ def oracle(ctx, case, spec, res):
             break
     # ---- the walk: bottom -> right -> top -> left -> closing point -------------
     nondeg = lx < hx and ly < hy
+    if nondeg and not (hx - lx > Fraction(1, 10 ** 9) * max(1, abs(lx), abs(hx)) and
+                       hy - ly > Fraction(1, 10 ** 9) * max(1, abs(ly), abs(hy))):
+        # a rectangle a few units in the last place wide (a source one ulp beside the only pixel centre of a
+        # one-pixel box): the samples of numpy.linspace cannot be told apart in doubles; the clauses about distinct,
+        # strictly monotone samples are statements over the reals -- counted, judged like a degenerate rectangle
+        ctx.near_tie()
+        ctx.branch('chip:near-degenerate-rectangle')
+        nondeg = False
     ss = spec['stepsize'] if spec['via'] == 'direct' else None
     if not nondeg:
         # degenerate (1-pixel-wide box) or inverted rectangle: only the count without stepsize
@@ -252,7 +300,8 @@ def report(ctx, case, bad, res):
 
 
 def sky_oracle(ctx, case, spec, res):
-    """the spherical footprint contains the sources that lie in the pixel rectangle"""
+    """the spherical footprint contains the sources that lie in the pixel rectangle (bounding box: the sources in
+    the closed bounding box -- by the pixel oracle they are in the rectangle)"""
     from . import c16 as base
     im = res['im']
     lx, hx, ly, hy = expected_rect(spec, res)
@@ -266,21 +315,34 @@ def sky_oracle(ctx, case, spec, res):
         ctx.branch('chip:sky:too-small-for-spherical_geometry-skipped')
         ctx.near_tie()
         return
-    xs = [a for a, b in zip(spec['x'], spec['y']) if lx <= to_fraction(a) <= hx and ly <= to_fraction(b) <= hy]
-    ys = [b for a, b in zip(spec['x'], spec['y']) if lx <= to_fraction(a) <= hx and ly <= to_fraction(b) <= hy]
+    if res['bbox'] is None:
+        sel = [(a, b) for a, b in zip(spec['x'], spec['y']) if lx <= to_fraction(a) <= hx and ly <= to_fraction(b) <= hy]
+    else:
+        sel = [(a, b) for a, b in zip(spec['x'], spec['y']) if in_box(res, a, b)]
+    xs, ys = [a for a, b in sel], [b for a, b in sel]
     if not xs:
         return
     ra, dec = im.det_to_world(np.array(xs, dtype=float), np.array(ys, dtype=float))
     ra, dec = np.atleast_1d(ra), np.atleast_1d(dec)
     if not (np.all(np.isfinite(ra)) and np.all(np.isfinite(dec))):
-        ctx.oracle_fail(case, {'what': 'chip footprint: det_to_world of a source inside the rectangle is not finite'})
+        ctx.oracle_fail(case, {'what': 'chip footprint: det_to_world of a source inside the rectangle (the closed '
+                                       'bounding box) is not finite'})
         return
     # a source ON the border of the rectangle (x = 0, x = nx - 1, ...) is on an arc of the spherical polygon: whether
     # spherical_geometry counts it as inside is rounding, and for footprints of a few pixels the rounding of the arcs
     # is a visible fraction of 1e-10 rad.  Margin: 1/100 of a pixel (the defects at stake are half a pixel).
     margin = base.MARGIN + 0.01 * pix
+    poly = im.polygon
+    if im.bb_radec[0] is not im.img_bounding_ra:
+        # three or more non-collinear sources through `calc_bounding_polygon`: `im.polygon` is the convex hull of the
+        # sources (the subject of the hull part of C16, with its own treatment of almost collinear vertices), not the
+        # whole-image footprint.  The whole-image footprint is judged on the sky border that the method stored, made
+        # a polygon by the same constructor.
+        from spherical_geometry.polygon import SphericalPolygon
+        poly = SphericalPolygon.from_radec(im.img_bounding_ra, im.img_bounding_dec)
+        ctx.branch('chip:sky:hull-replaced-the-footprint:stored-sky-border-tested')
     for r, d, a, b in zip(ra, dec, xs, ys):
-        ok, dist = base.contained(im.polygon, float(r), float(d), margin)
+        ok, dist = base.contained(poly, float(r), float(d), margin)
         if not ok:
             ctx.oracle_fail(case, {'what': 'image catalog (chip footprint): source at pixel (%r, %r) is outside the '
                                            'footprint' % (a, b), 'distance_to_boundary_rad': dist,
@@ -423,6 +485,35 @@ def corpus():
         cx, cy = 0.5 * (bounds[0][0] + bounds[0][1]), 0.5 * (bounds[1][0] + bounds[1][1])
         for ss in (None, 1.5):
             C.append(mkspec('jwst-bb', [cx], [cy], stepsize=ss, bounds=bounds, crpix=(5.0, 5.0)))
+    # sources in the outer half-pixel band of the bounding box, exactly on the edges of the box and of the shrunk
+    # box, in two bands at once, outside the box (the edge stops at the box), next to sources in the interior
+    band = (([1023.3], [500.0]), ([1023.5], [1023.5]), ([-0.5], [-0.5]), ([-0.3, 1023.4], [0.0, 1023.0]),
+            ([0.0, 1023.0], [1023.0, 0.0]), ([1023.25, 1023.25, 1023.25], [10.0, 500.0, 900.0]),
+            ([-0.25, 511.0], [1023.5, -0.4375]), ([1030.0], [500.0]), ([-7.0, 600.0], [2000.0, 1023.2]),
+            ([1023.5000000000001], [5.0]), ([1023.4999999999999, -0.49999999999999994], [0.0, 1023.0]))
+    for xs, ys in band:
+        C.append(mkspec('fits-bb', xs, ys, via='calc', shape=(1024, 1024), crpix=(512.0, 512.0)))
+        C.append(mkspec('fits-bb', xs, ys, stepsize=100, shape=(1024, 1024), crpix=(512.0, 512.0)))
+        if len(xs) <= 2:
+            # (three or more sources go through the convex hull, which has no sky coordinates outside a gWCS box)
+            C.append(mkspec('jwst-bb', xs, ys, via='calc', bounds=((-0.5, 1023.5), (-0.5, 1023.5)), crpix=(512.0, 512.0)))
+            C.append(mkspec('jwst-bb', xs, ys, stepsize=300, bounds=((-0.5, 1023.5), (-0.5, 1023.5)),
+                            crpix=(512.0, 512.0)))
+    for xs, ys in (([10.0], [7.0]), ([0.0], [3.0]), ([0.2, 9.75], [6.9, 3.25]), ([0.5, 9.5], [3.5, 6.5]), ([11.0], [5.0]),
+                   ([5.0, -1.0], [8.0, 5.0])):
+        for ss in (None, 0.75):
+            C.append(mkspec('fits-bounds', xs, ys, stepsize=ss, bounds=((0, 10), (3, 7)), shape=(16, 16)))
+            C.append(mkspec('jwst-bb', xs, ys, stepsize=ss, bounds=((0.0, 10.0), (3.0, 7.0)), crpix=(5.0, 5.0)))
+    # one-pixel boxes (the shrunk box is a point or a segment) and a box narrower than a pixel, sources off the centre
+    for xs, ys in (([0.25], [-0.25]), ([0.5], [0.5]), ([-0.5, 0.5], [0.0, 0.0]), ([0.0], [0.0])):
+        C.append(mkspec('fits-bb', xs, ys, stepsize=None, shape=(1, 1)))
+        C.append(mkspec('fits-bb', xs, ys, stepsize=0.25, shape=(2, 1)))
+        C.append(mkspec('jwst-bb', xs, ys, stepsize=None, bounds=((-0.5, 0.5), (-0.5, 1.5)), crpix=(5.0, 5.0)))
+    # `stepsize = 0` with edges taken from the catalog: still ZeroDivisionError (the edges are Python floats)
+    C.append(mkspec('fits-bb', [2.3], [-0.25], stepsize=0, shape=(3, 5)))
+    C.append(mkspec('jwst-bb', [99.25, 3.0], [49.5, 0.0], stepsize=0, bounds=((-0.5, 99.5), (-0.5, 49.5)), crpix=(5.0, 5.0)))
+    C.append(mkspec('fits-bounds', [2.2], [2.0], stepsize=None, bounds=((2, 2.5), (0, 4)), shape=(16, 16)))
+    C.append(mkspec('fits-bounds', [2.0, 2.5], [0.0, 4.0], stepsize=0.5, bounds=((2, 2.5), (0, 4)), shape=(16, 16)))
     return C
 
 
@@ -445,22 +536,51 @@ def gen_coord(rng, hi):
     return min(max(v, 0.0), float(hi))
 
 
+def gen_box_coord(rng, lo, hi, allow_outside):
+    """one pixel coordinate for a corrector with the bounding-box interval [lo, hi] (hi - lo >= 1): the interior
+    families of `gen_coord` on the pixel-centre range, the outer half-pixel bands, the edges of the box and of the
+    shrunk box, one ulp inside / outside an edge and -- when allowed, rarely -- positions outside the box"""
+    fam = rng.choice(['inner', 'inner', 'inner', 'band-lo', 'band-hi', 'band-lo', 'band-hi', 'box-edge', 'shrunk-edge',
+                      'ulp', 'outside'])
+    if fam == 'outside' and not allow_outside:
+        fam = 'inner'
+    if fam == 'inner':
+        return lo + 0.5 + gen_coord(rng, hi - lo - 1.0)
+    if fam in ('band-lo', 'band-hi'):
+        t = rng.choice([rng.randint(0, 7) / 16.0, rng.uniform(0.0, 0.5), 0.2, 0.3])
+        return lo + t if fam == 'band-lo' else hi - t
+    if fam == 'box-edge':
+        return rng.choice([lo, hi])
+    if fam == 'shrunk-edge':
+        return rng.choice([lo + 0.5, hi - 0.5])
+    if fam == 'ulp':
+        e = rng.choice([lo, hi, lo + 0.5, hi - 0.5])
+        v = float(np.nextafter(e, rng.choice([-np.inf, np.inf])))
+        if not allow_outside:
+            v = min(max(v, lo), hi)
+        return v
+    d = rng.choice([0.25, 0.5, 1.0, 6.5, 300.0])
+    return lo - d if rng.random() < 0.5 else hi + d
+
+
 def gen_spec(rng):
     from . import c16 as base
     kind = rng.choice(['fits-bb', 'fits-bb', 'fits-bounds', 'fits-nobb', 'fits-nobb', 'jwst-bb', 'jwst-nobb'])
     loc = rng.choice(base.LOCATIONS)
     rot = rng.uniform(0, 360)
     n = rng.choice([1, 1, 2, 2, 3, 4, 5])
-    shape = bounds = None
+    shape = bounds = box = None
     if kind == 'fits-bb':
         shape = rng.choice([(1, 1), (2, 1), (1, 3), (2, 2), (7, 3), (64, 48), (333, 1000), (1024, 1024), (2048, 4096),
                             (rng.randint(1, 300), rng.randint(1, 300))])
         ext = (shape[0] - 1.0, shape[1] - 1.0)
         org = (0.0, 0.0)
+        box = ((-0.5, shape[0] - 0.5), (-0.5, shape[1] - 0.5))
     elif kind in ('fits-bounds', 'jwst-bb'):
         if kind == 'jwst-bb' and rng.random() < 0.3:
             bounds = None
             org, ext = (0.0, 0.0), (1023.0, 2047.0)
+            box = ((-0.5, 1023.5), (-0.5, 2047.5))
         else:
             q = rng.choice([1, 1, 2, 4])
             a, c = rng.randint(-40, 40) / q, rng.randint(-40, 40) / q
@@ -471,12 +591,21 @@ def gen_spec(rng):
                           (int(math.floor(c)), int(math.floor(c)) + int(math.ceil(wy))))
             org = (bounds[0][0] + 0.5, bounds[1][0] + 0.5)
             ext = (bounds[0][1] - bounds[0][0] - 1.0, bounds[1][1] - bounds[1][0] - 1.0)
+            box = ((float(bounds[0][0]), float(bounds[0][1])), (float(bounds[1][0]), float(bounds[1][1])))
         shape = (16, 16)
     else:
         org = (0.0, 0.0)
         ext = (rng.choice([0.0, 1.0, 3.0, 50.0, 2000.0, 1e5, 3e6]), rng.choice([0.0, 2.0, 10.0, 700.0, 1e6]))
-    xs = [org[0] + gen_coord(rng, ext[0]) for _ in range(n)]
-    ys = [org[1] + gen_coord(rng, ext[1]) for _ in range(n)]
+    if box is None or rng.random() < 0.25:
+        # (with a bounding box: a quarter of the catalogs keep half a pixel from the edges -- nothing moves)
+        xs = [org[0] + gen_coord(rng, ext[0]) for _ in range(n)]
+        ys = [org[1] + gen_coord(rng, ext[1]) for _ in range(n)]
+    else:
+        # anywhere in the closed bounding box; outside it in one catalog out of seven (a gWCS has no sky coordinates
+        # there, and three or more sources go through the convex hull: at most two sources then)
+        outside = rng.random() < 0.15 and (kind != 'jwst-bb' or n <= 2)
+        xs = [gen_box_coord(rng, box[0][0], box[0][1], outside) for _ in range(n)]
+        ys = [gen_box_coord(rng, box[1][0], box[1][1], outside) for _ in range(n)]
     if kind.endswith('nobb') and rng.random() < 0.15:
         # coordinates below the first pixel (excluded from the containment clause; the model still applies)
         i = rng.randrange(n)
@@ -507,6 +636,34 @@ def is_dyadic(spec, res):
     return all(to_fraction(v).denominator <= 64 and abs(v) < 2 ** 30 for v in vals)
 
 
+def nondeg_or_pixel(res):
+    """the bounding box is at least one pixel wide and high"""
+    return res['bbox'][0][1] - res['bbox'][0][0] >= 1 and res['bbox'][1][1] - res['bbox'][1][0] >= 1
+
+
+def count_box_sources(ctx, spec, res):
+    """input distribution of the bounding-box cases: where the sources are relative to the box"""
+    moved = False
+    for (lo, hi), col in zip(res['bbox'], (spec['x'], spec['y'])):
+        lo, hi = to_fraction(lo), to_fraction(hi)
+        for v in col:
+            v = to_fraction(v)
+            if v < lo or v > hi:
+                ctx.branch('chip:bb-coordinate:outside-box')
+                moved = True
+            elif v in (lo, hi):
+                ctx.branch('chip:bb-coordinate:on-box-edge')
+                moved = True
+            elif v < lo + HALF or v > hi - HALF:
+                ctx.branch('chip:bb-coordinate:outer-half-pixel-band')
+                moved = True
+            elif v in (lo + HALF, hi - HALF):
+                ctx.branch('chip:bb-coordinate:on-shrunk-edge')
+            else:
+                ctx.branch('chip:bb-coordinate:interior')
+    ctx.branch('chip:bb-rectangle:' + ('follows-a-source' if moved else 'shrunk-box'))
+
+
 def one_case(ctx, spec, lines, pending):
     res = run_real(spec)
     case = dict(spec)
@@ -523,7 +680,7 @@ def one_case(ctx, spec, lines, pending):
     if res['status'] == 'exc':
         ctx.branch('chip:impl-exception:%s:%s' % (res['stage'], res['exc']))
         expected = (res['stage'] == 'ctor' and len(spec['x']) == 0 and res['bbox'] is None) or \
-                   (res['stage'] == 'call' and ss is not None and ss == 0)
+                   (res['stage'] == 'call' and ss is not None and ss == 0 and res['exc'] == 'ZeroDivisionError')
         if not expected:
             ctx.oracle_fail(case, {'what': 'chip footprint: %s raised in %s' % (res['exc'], res['stage'])})
     else:
@@ -531,7 +688,15 @@ def one_case(ctx, spec, lines, pending):
             ctx.branch('chip:degenerate-rectangle')
         if any(to_fraction(v) == to_fraction(v).__floor__() + HALF for v in spec['x'] + spec['y']):
             ctx.branch('chip:half-integer-coordinate')
+        if res['bbox'] is not None:
+            count_box_sources(ctx, spec, res)
         bad = oracle(ctx, case, spec, res)
+        if not bad and res['bbox'] is not None and nondeg_or_pixel(res):
+            # the rectangle is inside the closed bounding box: the sky map is defined on all of its border
+            im = res['im']
+            if not (np.all(np.isfinite(im.img_bounding_ra)) and np.all(np.isfinite(im.img_bounding_dec))):
+                bad = ['NaN']
+                ctx.oracle_fail(case, {'what': 'chip footprint: a vertex of the footprint has no finite sky coordinates'})
         if not bad:
             sky_oracle(ctx, case, spec, res)
     if ctx.search_only:
@@ -544,44 +709,38 @@ def one_case(ctx, spec, lines, pending):
 
 
 def band_probe(ctx):
-    """Observation recorded by this work package (reported, tagged `FINDING_BAND`): with a bounding box the footprint
-    is the box shrunk by half a pixel, so a catalog of one or two sources with a source in the outer half-pixel
-    band of the image (e.g. x = 1023.3 in a 1024-pixel-wide image) is outside its own footprint."""
+    """Regression probe of the repaired finding F25: before the repair the footprint of a corrector with a bounding
+    box was the box shrunk by half a pixel whatever the catalog, so a catalog of one or two sources with a source in
+    the outer half-pixel band of the image (x = 1023.3 in a 1024-pixel-wide image) was outside its own footprint."""
     from . import c16 as base
-    from ..common import load_known
-    spec = mkspec('fits-bb', [1023.3], [500.0], via='calc', shape=(1024, 1024), crpix=(512.0, 512.0))
-    case = dict(spec, probe='outer-half-pixel-band')
-    ctx.case(case, nontrivial=True, branch='chip:probe:outer-half-pixel-band')
-    res = run_real(spec)
-    if res['status'] != 'ok':
-        ctx.oracle_fail(case, {'what': 'chip footprint probe: %s raised' % res.get('exc')})
-        return
-    im = res['im']
-    ra, dec = im.det_to_world(np.array(spec['x']), np.array(spec['y']))
-    ok, dist = base.contained(im.polygon, float(ra[0]), float(dec[0]))
-    if ok:
-        ctx.branch('chip:probe:outer-half-pixel-band:inside')
-        ctx.note('chip footprint: the source in the outer half-pixel band is now inside the footprint')
-        return
-    ctx.branch('chip:probe:outer-half-pixel-band:outside')
-    listed = any(k.get('id') == FINDING_BAND for k in load_known().get('open', []))
-    detail = {'what': 'image catalog of one source at x=1023.3 (inside the 1024x1024 image, whose bounding box is '
-                      '[-0.5, 1023.5]) is outside its own footprint: the whole-image footprint is the bounding box '
-                      'shrunk by half a pixel on every side',
-              'distance_to_boundary_rad': dist, 'finding': FINDING_BAND}
-    if listed:
-        ctx.oracle_fail(case, detail)
-    else:
-        ctx.note('OBSERVATION (not counted; candidate finding %s): %s (distance %.3g rad)'
-                 % (FINDING_BAND, detail['what'], dist))
+    for kind, kw in (('fits-bb', {'shape': (1024, 1024)}), ('jwst-bb', {'bounds': ((-0.5, 1023.5), (-0.5, 1023.5))})):
+        spec = mkspec(kind, [1023.3], [500.0], via='calc', crpix=(512.0, 512.0), **kw)
+        case = dict(spec, probe='outer-half-pixel-band')
+        ctx.case(case, nontrivial=True, branch='chip:probe:outer-half-pixel-band')
+        res = run_real(spec)
+        if res['status'] != 'ok':
+            ctx.oracle_fail(case, {'what': 'chip footprint probe: %s raised' % res.get('exc')})
+            continue
+        im = res['im']
+        ra, dec = im.det_to_world(np.array(spec['x']), np.array(spec['y']))
+        ok, dist = base.contained(im.polygon, float(ra[0]), float(dec[0]))
+        if ok:
+            ctx.branch('chip:probe:outer-half-pixel-band:inside')
+            continue
+        ctx.branch('chip:probe:outer-half-pixel-band:outside')
+        ctx.oracle_fail(case, {'what': 'image catalog of one source at x=1023.3 (inside the 1024x1024 image, whose '
+                                       'bounding box is [-0.5, 1023.5]) is outside its own footprint: the whole-image '
+                                       'footprint is the bounding box shrunk by half a pixel on every side, past the '
+                                       'source', 'distance_to_boundary_rad': dist,
+                               'footprint_rectangle': [res['bx'][0], max(res['bx']), res['by'][0], max(res['by'])]})
 
 
 def run_extra(ctx):
     """oracle part always; correspondence part (model driver) only when not ctx.search_only"""
     lines, pending = [], []
+    band_probe(ctx)
     for spec in corpus():
         one_case(ctx, spec, lines, pending)
-    band_probe(ctx)
     for _ in range(ctx.n(160, 2500)):
         one_case(ctx, gen_spec(ctx.rng), lines, pending)
     if ctx.search_only or not lines:
